@@ -36,7 +36,14 @@ RULE = (
     "poll a restart makes at once when blocks were pending). Checked: restart succeeds with the same tower id; no dangling records at the "
     "kill, after restart and at the end (extracted Crash.db_inv_b); crash never grants slots and costs at most the in-flight request "
     "(extracted Crash.balance); other records equal one of the two runs; after a crash during block processing the final tables equal the "
-    "uninterrupted run's (up to the stamp of unconfirmed trackers) and every submission of that run was made. distinct = (history, crash point)")
+    "uninterrupted run's (up to the stamp of unconfirmed trackers) and every submission of that run was made. "
+    "(3) family THE CHAIN MOVES WHILE THE TOWER IS DOWN (7 scripted histories, +150 random in the thorough tier; the node answers consistently "
+    "with its chain: a confirmed transaction is reported confirmed by getrawtransaction and refused with -27 by sendrawtransaction, a penalty is "
+    "only mined once the node was given it): for a kill at EVERY crash point of the poll that answered a breach and of a late (trigger in the "
+    "cache) add_appointment, further blocks are mined between the kill and the restart (the penalty confirms / another dispute and the penalty / "
+    "unrelated blocks / the block being processed is reorged away, with or without the dispute coming back); the oracle is the uninterrupted "
+    "run over the very chain that crash run ended with: same final tables (an acknowledged appointment keeps its tracker or its row), every "
+    "penalty of that run submitted at least once. distinct = (history, crash point)")
 
 
 def flag(name):
@@ -127,6 +134,7 @@ def run(ctx):
             cov["micro_step_kinds"] = summ.get("micro_kinds", "")
             cov["crash_databases_compared_with_model"] = summ.get("crashdb_compared", 0)
             cov["crash_databases_skipped_inside_unordered_loop"] = summ.get("crashdb_skipped", 0)
+            cov["crash_runs_with_chain_moving_while_down"] = summ.get("down_cases", 0)
             cov["exhaustive"] = True
             cov["rule"] = RULE
             with open(allf) as f:
